@@ -56,13 +56,19 @@ def run_real(c, make):
     fuel = c['fuel']
     calls = [0]
     cbs = []
+    late = bool(c.get('latectx'))
 
     def do(op):
         k = op[0]
-        if k == 'on':
-            e.on('n%d' % op[1], get(op[2]), {'c': op[3]})
-        elif k == 'once':
-            e.once('n%d' % op[1], get(op[2]), {'c': op[3]})
+        if k in ('on', 'once'):
+            sub = e.on if k == 'on' else e.once
+            if late:
+                # the host binds a context mapping that is still empty and fills it afterwards: it is THAT mapping which is bound
+                ctx = {}
+                sub('n%d' % op[1], get(op[2]), ctx)
+                ctx['c'] = op[3]
+            else:
+                sub('n%d' % op[1], get(op[2]), {'c': op[3]})
         elif k == 'off':
             e.off('n%d' % op[1])
         elif k == 'offcb':
@@ -161,7 +167,7 @@ def run_spec(c):
 
 
 def show(main, probe):
-    f = lambda l: ' '.join('(%d %d %d %d %d)' % t for t in l)
+    f = lambda l: ' '.join('(%s %s %s %s %s)' % tuple('none' if x is None else ('%d' % x if isinstance(x, int) else str(x)) for x in t) for t in l)
     return '((%s) (%s))' % (f(main), f(probe))
 
 
@@ -228,7 +234,7 @@ def gen_case(rng, maxlen):
         bodies.append([gen_op(rng, names, ncb) for _ in range(k)])
     ops = [gen_op(rng, names, ncb) for _ in range(rng.randrange(1, maxlen + 1))]
     return {'kind': 'script', 'on': rng.choice(['emitter', 'emitter', 'parser']), 'fuel': fuel,
-            'flavour': rng.choice(['function', 'function', 'bound', 'wrapped']),
+            'flavour': rng.choice(['function', 'function', 'bound', 'wrapped']), 'latectx': rng.random() < 0.4,
             'names': names, 'bodies': bodies, 'ops': ops}
 
 
@@ -250,7 +256,8 @@ CORE = [
 
 def cases(rng, ctx):
     thorough = ctx['tier'] == 'thorough'
-    out = [dict(c) for c in CORE] + [dict(c, flavour='bound') for c in CORE] + [dict(c, flavour='wrapped') for c in CORE]
+    out = [dict(c) for c in CORE] + [dict(c, flavour='bound') for c in CORE] + [dict(c, flavour='wrapped') for c in CORE] + \
+        [dict(c, latectx=True) for c in CORE]
     n = (20000 if thorough else 1500) * ctx['scale']
     maxlen = 60 if thorough else 30
     for _ in range(n):
